@@ -4,6 +4,8 @@ CONTRACT_MODULES = ["contracts.optimize", "contracts.matrixutils"]
 FUNCTIONS = ["SVD.lstsq", "MeritFuctionView._scaled_to_native", "MeritFuctionView._scaled_from_native", "MeritFunctionForMatch._x_to_knobs",
              "MeritFunctionForMatch._knobs_to_x", "MeritFunctionForMatch.get_jacobian@finite-difference-block",
              "MeritFuctionView.get_jacobian@chain-rule-factor"]
+# the caller of SVD.lstsq: the Newton step is lstsq(y[mask_output], rcond=<step's rcond>, sing_val_cutoff=<step's cutoff>) of the masked Jacobian (proved under C10's configuration)
+BORROW = [("C10", ["JacobianSolver.step@newton-step-block"])]
 RAC = "rac/c16.py"
 RAC_BUDGET = {"quick": 60, "thorough": 900}
 RAC_MIN = {"quick": 586, "thorough": 586}      # fewer run-time evaluations than this = the harness skipped its work: checker broken, not "held"
